@@ -293,11 +293,13 @@ int64_t cmb_resource_preempt(struct cmb_resource *rp)
         cmi_process_remove_holdable(victim, hrp);
         cmi_process_cancel_awaiteds(victim);
         rp->holder = NULL;
+        /* Make the notification the first thing that happens to the victim,
+         * ahead of any interrupt that would cancel it */
         (void)cmb_event_schedule(wakeup_event_preempt,
                                  (void *)victim,
                                  (void *)CMB_PROCESS_PREEMPTED,
                                  cmb_time(),
-                                 victim->priority);
+                                 INT64_MAX);
 
         /* Take its place */
         resource_grab(rp, pp);
